@@ -151,6 +151,10 @@ def short(case):
 
 
 # ---- judging helpers ---------------------------------------------------------------------------
+class Poisoned(Exception):
+    """The alias probe changed an operand: the objects of this case can no longer be judged."""
+
+
 def _exc(got):
     return type(got[1]).__name__
 
@@ -198,6 +202,7 @@ def check_result(ctx, c, op, ic, got, exp_cls, exp_bits, key, nontrivial, operan
             good = False
             ctx.mismatch(f'C01|{op}|{ic}|result-aliases-operand', c,
                          f'{op}: mutating the result changed operand #{bad[0]}')
+            raise Poisoned()
         else:
             ctx.ok((key, 'fresh'), nontrivial)
     if good:
@@ -261,7 +266,7 @@ def judge_seq(ctx, c):
     exp = [ch == '1' for ch in bits]
     got = call(lambda: list(s))
     ctx.op('iter', got[0] if got[0] == 'ok' else _exc(got))
-    if got[0] == 'ok' and got[1] == exp and all(x is True or x is False for x in got[1][:64]):
+    if got[0] == 'ok' and got[1] == exp:
         ctx.ok((cn, lb, 'iter', 'list'), L > 0)
     else:
         shape = 'value' if got[0] == 'ok' else 'unexpected-exc:' + _exc(got)
@@ -415,24 +420,24 @@ def judge_add(ctx, c):
     # the catalogued defect gets its own, narrow failure shape: the result has the *right* operand's class
     if (got[0] == 'ok' and is_bs(ls) and is_bs(rs) and type(got[1]) is not exp_cls
             and type(got[1]) is CLASSES[rs[0]]):
-        ctx.mismatch(f'C01|{op}|{ic}|result-class-of-right-operand', short(c),
+        ctx.mismatch(f'C01|{op}|{ic}|result-class-of-right-operand', c,
                      f'{ls[0]}(len {len(lbits)}) + {rs[0]}(len {len(rbits)}) is a {type(got[1]).__name__}')
         exp_cls = type(got[1])       # content / pos / aliasing are still judged
-    check_result(ctx, short(c) if len(lbits) + len(rbits) > 400 else c, op, ic, got, exp_cls, lbits + rbits,
+    check_result(ctx, c, op, ic, got, exp_cls, lbits + rbits,
                  key, nontrivial, operands=operands, probe=True)
     # operands (bitstrings and mutable promotables) are as before; stream operands keep their position
     for o, b in operands:
-        check_operand(ctx, short(c), op, ic, o, b)
+        check_operand(ctx, c, op, ic, o, b)
     for o, snap, side in ((left, lsnap, 'left'), (right, rsnap, 'right')):
         if snap is not None:
             now = snapshot(o)
             if now != snap:
-                ctx.mismatch(f'C01|{op}|{ic}|promotable-operand-modified', short(c), f'{side} {type(o).__name__} changed')
+                ctx.mismatch(f'C01|{op}|{ic}|promotable-operand-modified', c, f'{side} {type(o).__name__} changed')
             else:
                 ctx.ok()
     for o, p, side in ((left, lpos, 'left'), (right, rpos, 'right')):
         if p is not None and call(lambda: o.pos) != ('ok', p):
-            ctx.mismatch(f'C01|{op}|{ic}|operand-pos-moved', short(c), f'{side} operand pos {p} -> {o.pos}')
+            ctx.mismatch(f'C01|{op}|{ic}|operand-pos-moved', c, f'{side} operand pos {p} -> {o.pos}')
     ctx.state(ls[0], rs[0], len(lbits), len(rbits))
 
 
@@ -477,7 +482,10 @@ JUDGES = {'seq': judge_seq, 'slice': judge_slice, 'sliceprod': judge_slice, 'sli
 
 def judge(ctx, c):
     with util.options(lsb0=False, bytealigned=False):
-        JUDGES[c['k']](ctx, c)
+        try:
+            JUDGES[c['k']](ctx, c)
+        except Poisoned:
+            pass
 
 
 # ---- workload ----------------------------------------------------------------------------------------------
